@@ -43,6 +43,9 @@ func init() {
 	streams["engine-c11"] = func(t *testing.T, o *Out) {
 		streamEngine(t, o, EngProfile{Name: "c11", LimitsLoose: true, Conforming: true})
 	}
+	streams["engine-c06"] = func(t *testing.T, o *Out) {
+		streamEngine(t, o, EngProfile{Name: "c06", LimitsLoose: true, OtherNet: true})
+	}
 	streams["engine-c03"] = func(t *testing.T, o *Out) {
 		streamEngine(t, o, EngProfile{Name: "c03", LimitsLoose: true, Faults: true})
 	}
@@ -92,6 +95,24 @@ func streamEngine(t *testing.T, o *Out, p EngProfile) {
 		c := genEngCase(r, p)
 		if err := env.prepare(c, o); err != nil {
 			t.Fatalf("prepare: %v", err)
+		}
+		if p.OtherNet {
+			// the other network holds tuples that would change many answers if they leaked:
+			// the same relations with every subject a member of everything
+			var other []Tup
+			for _, tt := range genTuples(r, c.NSs, false) {
+				other = append(other, tt)
+			}
+			for _, tt := range c.Tuples {
+				if tt.Sub.IsSet {
+					other = append(other, Tup{NS: tt.Sub.NS, Obj: tt.Sub.Obj, Rel: tt.Sub.Rel, Sub: c.Query.Sub})
+				}
+			}
+			other = append(other, c.Query)
+			if err := env.fillOtherNetwork(other); err != nil {
+				t.Fatalf("other network: %v", err)
+			}
+			o.Count("other-net-tuples")
 		}
 		switch {
 		case p.Faults:
